@@ -28,8 +28,9 @@ ASSUMPTIONS = [
     "permitted tools running is only counted (non-vacuity), never demanded",
 ]
 MIN_NONTRIVIAL_FRACTION = 0.2
-EXHAUSTIVE_NOTE = {"quick": "12 allowed sets (incl. None, empty, full) x 12 required sets x 10 entry points = 1440 single-tool cases, complete for that lattice",
-                   "thorough": "same lattice, complete"}
+RULE += " Added after the seeded rounds: " + 'Tools are also requested as an argument of another tool, inside arithmetic and inside a comparison, and under other spellings of their name (upper-case, title-case, padded). Bodies are counted per registration (a body whose own registration is outside the allowed set must never run, whatever the name resolves to), and 1/8 of the generated cases plus an enumerated table are two-thread races: one thread requests t0 through metabolize / execute_tool_call / the Nucleus tool loop while a second re-registers t0 with other requirements, under every single-preemption schedule (line granularity of mitochondria.py and nucleus.py) and under generated schedules.'
+EXHAUSTIVE_NOTE = {"quick": "12 allowed sets (incl. None, empty, full) x 12 required sets x 10 entry points = 1440 single-tool cases, complete for that lattice; re-registration race: 3 configurations x 4 entry points x every single preemption point up to step 90",
+                   "thorough": "same lattice, complete; race table up to step 160"}
 
 CAPS = ["READ_FS", "WRITE_FS", "NET", "EXEC_CODE", "MONEY", "EMAIL_SEND"]
 ENTRIES = ["auto", "forced-tool", "forced-math", "forced-logic", "forced-transform", "execute_tool_call", "nucleus", "nested-arg", "in-arithmetic", "in-comparison"]
@@ -46,12 +47,22 @@ _step = st.one_of(
 ).map(list)
 
 
+RACE_ENTRIES = ["auto", "forced-tool", "execute_tool_call", "nucleus"]
+
+
 def strategy(tier):
-    return st.fixed_dictionaries({
+    hist = st.fixed_dictionaries({
         "allowed": st.one_of(st.none(), st.just([]), _caps, _caps),
         "init": st.lists(st.tuples(st.sampled_from(TOOLS), _caps).map(list), max_size=2),
         "steps": st.lists(_step, min_size=1, max_size=12),
     })
+    # "interleavings of registration and calls" taken literally: a second thread re-registers the requested name while the request is in flight
+    race = st.fixed_dictionaries({
+        "allowed": st.one_of(st.just([]), _caps), "init": st.just([]), "steps": st.just([]),
+        "race": st.fixed_dictionaries({"old": _caps, "new": _caps, "entry": st.sampled_from(RACE_ENTRIES), "how": st.sampled_from(HOWS),
+                                       "schedule": st.lists(st.integers(0, 1), max_size=100)}),
+    })
+    return st.integers(0, 7).flatmap(lambda k: race if k == 0 else hist)
 
 
 _LATTICE = [None, [], ["NET"], ["READ_FS"], ["NET", "READ_FS"], ["WRITE_FS"], ["MONEY", "EMAIL_SEND"], ["EXEC_CODE"],
@@ -62,6 +73,11 @@ def enumerate_cases(tier):
     for allowed, req, entry in itertools.product(_LATTICE, _LATTICE, ENTRIES):
         r = req or []
         yield {"allowed": allowed, "init": [], "steps": [["reg", "engulf", "t0", r], ["call", entry, "t0"]]}
+    horizon = 160 if tier == "thorough" else 90
+    for allowed, old in (([], []), (["READ_FS"], ["READ_FS"]), (["READ_FS"], [])):
+        for entry in RACE_ENTRIES:
+            for s1 in range(1, horizon):
+                yield {"allowed": allowed, "init": [], "steps": [], "race": {"old": old, "new": ["NET"], "entry": entry, "how": "engulf", "plan": {"first": 0, "preempt": [[s1, 1]]}}}
     for entry in ("auto", "forced-tool", "execute_tool_call", "nucleus"):
         for variant in ("upper", "title", "padded"):
             for allowed in ([], ["NET"]):
@@ -90,24 +106,28 @@ def judge(case):
     out = Outcome()
     allowed = None if case["allowed"] is None else {getattr(Capability, c) for c in case["allowed"]}
     counters = {}
+    regs = []              # one record per registration, in order: [name, set of cap names, number of times its body ran]
     required = {}          # tool name -> set of cap names of the *latest* registration
     secrets = {}
     serial = itertools.count()
 
-    def mk_body(name):
+    def mk_body(name, caps=()):
         token = "SECRET-%s-%d" % (name, next(serial))
         secrets[name] = token
+        rec = [name, set(caps), 0]
+        regs.append(rec)
 
         def body(*a, **kw):
             counters[name] = counters.get(name, 0) + 1
+            rec[2] += 1
             return token
 
         return body
 
     def register(m, how, name, caps):
         capset = {getattr(Capability, c) for c in caps}
-        body = mk_body(name)
-        counters[name] = 0
+        body = mk_body(name, caps)
+        counters.setdefault(name, 0)
         required[name] = set(caps)
         if how == "engulf":
             m.engulf_tool(SimpleTool(name=name, description="d", func=body, required_capabilities=capset))
@@ -121,8 +141,8 @@ def judge(case):
     init_tools = []
     for name, caps in case["init"]:
         capset = {getattr(Capability, c) for c in caps}
-        body = mk_body(name)
-        counters[name] = 0
+        body = mk_body(name, caps)
+        counters.setdefault(name, 0)
         required[name] = set(caps)
         init_tools.append(SimpleTool(name=name, description="d", func=body, required_capabilities=capset))
     try:
@@ -133,6 +153,10 @@ def judge(case):
 
     def disallowed(name):
         return allowed is not None and name in required and not required[name] <= set(case["allowed"])
+
+    if "race" in case:
+        _race(case, out, m, register, regs, Nucleus, LLMResponse, ToolCall, MetabolicPathway)
+        return out
 
     for i, step in enumerate(case["steps"]):
         if step[0] == "reg":
@@ -147,6 +171,7 @@ def judge(case):
         # the tool may be requested under another spelling of its name: whatever the engine resolves it to, a disallowed body must not run
         asked = {"exact": name, "upper": name.upper(), "title": name.title(), "padded": " " + name + " "}[variant]
         before = dict(counters)
+        ran_before = [r[2] for r in regs]
         leaked_into = []
         reported_success = None
         returned = []
@@ -206,6 +231,12 @@ def judge(case):
             return out
         d = {"step": i, "entry": entry, "tool": name, "allowed": case["allowed"], "required": sorted(required.get(name, [])),
              "ran": counters.get(name, 0) - before.get(name, 0), "reported_success": reported_success}
+        for rec, b4 in zip(regs, ran_before + [0] * len(regs)):
+            if allowed is not None and rec[2] != b4 and not rec[1] <= set(case["allowed"]):
+                out.nontrivial = True
+                out.fail("disallowed-tool-ran:%s" % entry, "a body of tool %s registered with requirement %s ran through %s although only %s is allowed"
+                         % (rec[0], sorted(rec[1]), entry, case["allowed"]), d)
+                return out
         resolved = name in required and entry not in ("forced-math", "forced-logic", "forced-transform", "in-arithmetic", "in-comparison")
         if disallowed(name):
             if resolved:
@@ -232,3 +263,72 @@ def judge(case):
                 out.fail("bystander-tool-ran", "tool %s ran although %s was requested" % (other, name), d)
                 return out
     return out
+
+
+def _race(case, out, m, register, regs, Nucleus, LLMResponse, ToolCall, MetabolicPathway):
+    """thread 0 requests t0 while thread 1 re-registers t0 with other requirements, under a generated / enumerated line-granularity schedule"""
+    from pbt.instruments.sched import PlanScheduler, Scheduler
+    r = case["race"]
+    register(m, r["how"], "t0", r["old"])
+    entry = r["entry"]
+
+    def requester(results):
+        try:
+            if entry in ("auto", "forced-tool"):
+                res = m.metabolize("t0(1 + 2, max(3, 4), 5 * 6)", MetabolicPathway.OXIDATIVE if entry == "forced-tool" else None)
+                results.append(bool(res.success))
+            elif entry == "execute_tool_call":
+                results.append(bool(m.execute_tool_call(ToolCall(id="c", name="t0", arguments={})).success))
+            else:
+                n = [0]
+
+                class Provider:
+                    name = "adversary"
+
+                    def is_available(self):
+                        return True
+
+                    def complete(self, prompt, config=None):
+                        return LLMResponse(content="final", model="m", tokens_used=1, latency_ms=0.0)
+
+                    def complete_with_tools(self, prompt, tools, config=None):
+                        n[0] += 1
+                        calls = [ToolCall(id="n%d" % n[0], name="t0", arguments={})] if n[0] <= 2 else []
+                        return LLMResponse(content="r", model="m", tokens_used=1, latency_ms=0.0), calls
+
+                Nucleus(provider=Provider()).transcribe_with_tools("please", m, max_iterations=2)
+                results.append(None)
+        except Exception as e:  # noqa: BLE001 - a raise is judged below
+            results.append("raised:%s" % type(e).__name__)
+
+    def registrar(results):
+        register(m, r["how"], "t0", r["new"])
+
+    traced = ("organelles/mitochondria.py", "organelles/nucleus.py")
+    s = PlanScheduler(traced, r["plan"], max_steps=20000) if "plan" in r else Scheduler(traced, r["schedule"], max_steps=20000)
+    try:
+        s.run([requester, registrar])
+    except TimeoutError as e:
+        raise HarnessError(str(e))
+    d = {"entry": entry, "allowed": case["allowed"], "old": r["old"], "new": r["new"], "steps": s.steps, "preemptions": s.preemptions,
+         "ran": [[rec[0], sorted(rec[1]), rec[2]] for rec in regs], "result": s.threads[0].results}
+    out.label("race:%s" % entry)
+    if s.preemptions >= 1 and any(not rec[1] <= set(case["allowed"]) for rec in regs):
+        out.nontrivial = True
+    if s.deadlock or s.over_budget:
+        out.fail("race:no-progress", "the two threads did not finish", d)
+        return
+    for t in s.threads:
+        if t.error is not None:
+            if isinstance(t.error, HarnessError):
+                raise t.error
+            out.fail("raise:%s:race" % type(t.error).__name__, "thread %d raised %s: %s" % (t.idx, type(t.error).__name__, t.error), d)
+            return
+    if s.threads[0].results and isinstance(s.threads[0].results[0], str):
+        out.fail("raise:%s:%s" % (s.threads[0].results[0].split(":")[1], entry), "%s raised while the tool was being re-registered" % entry, d)
+        return
+    for rec in regs:
+        if rec[2] and not rec[1] <= set(case["allowed"]):
+            out.fail("disallowed-tool-ran:race:%s" % entry, "a body of tool %s registered with requirement %s ran through %s although only %s is allowed"
+                     % (rec[0], sorted(rec[1]), entry, case["allowed"]), d)
+            return
